@@ -65,6 +65,7 @@ def run(repo, tier):
     n_req = 0
     n_tests = 0
     guard_seen = False
+    unread = []          # (line, text) of inequalities before the first request whose terms the rules cannot relate to the firmware length
     seen = set()
     for p in paths:
         m = D.PathModel(p, consts)
@@ -84,23 +85,29 @@ def run(repo, tier):
                     rep.note('chunk size not derived on a path: ' + shape)
             if not isinstance(shape, str):
                 S = shape[3]
-        sym = m.base_sym(raw)
-        if raw is not None and ('whole', repr(strip(raw))) not in seen:
-            seen.add(('whole', repr(strip(raw))))
-            whole, why = D.whole_file_read(raw)
-            if whole is None:
-                raise AnalysisError('cli_main: ' + why)
-            node_r = next((ev[-1] for ev in p.events if ev[0] == 'value' and ev[1] == raw), fn)
-            rep.check(whole, 'R19.1.whole-file', 'the length that is guarded is the length of the whole file',
-                      lambda why=why, node_r=node_r: Finding('R19.1.whole-file', 'cli_main', node_r, why + ': an oversize firmware file is not refused', file=FILE,
-                                                             line=getattr(node_r, 'lineno', fn.lineno)))
+        # the guard is recognised by what it compares: the length of a buffer bound earlier on the path (the symbol ('len', X)); that
+        # buffer X must be the whole content of the file - whatever is done to the image afterwards
+        sym = m.base_sym(None)
         # (1) guard
         guard = None
         for kind, idx, node, payload in evs:
             if kind == 'COND':
                 g = sym.gt(payload[0])
-                if g is not None and D.mentions(g, LEN):
-                    a, b, high = D.split_by(g, LEN)
+                lens = {s_ for mono in g.terms for s_ in mono if isinstance(s_, tuple) and s_ and s_[0] == 'len'} if g is not None else set()
+                if len(lens) == 1:
+                    LENX = next(iter(lens))
+                    buf = LENX[1]
+                    if ('whole', repr(strip(buf))) not in seen:
+                        seen.add(('whole', repr(strip(buf))))
+                        whole, why = D.whole_file_read(buf)
+                        if whole is None:
+                            rep.undecided('cli_main: ' + why)
+                            whole = True
+                        node_r = next((ev[-1] for ev in p.events if ev[0] == 'value' and ev[1] == buf), fn)
+                        rep.check(whole, 'R19.1.whole-file', 'the length that is guarded is the length of the whole file',
+                                  lambda why=why, node_r=node_r: Finding('R19.1.whole-file', 'cli_main', node_r, why + ': an oversize firmware file is not refused', file=FILE,
+                                                                         line=getattr(node_r, 'lineno', fn.lineno)))
+                    a, b, high = D.split_by(g, LENX)
                     if payload[1] is False:
                         form_ok = not high and b == Poly.const(1)
                         cap = -a if form_ok else None
@@ -122,7 +129,7 @@ def run(repo, tier):
                             if not form_ok and not (D.understood(cap, sym) and D.understood(S, sym)):
                                 rep.undecided('the capacity the size guard admits ({}) is not an expression the rules can follow'.format(cap))
                                 form_ok = None
-                        elif not form_ok and not D.understood(g, sym, (LEN,)):
+                        elif not form_ok and not D.understood(g, sym, (LENX,)):
                             rep.undecided('the size guard compares the firmware length with something the rules cannot follow: {}'.format(g))
                             form_ok = None
                         if form_ok is None:
@@ -148,6 +155,11 @@ def run(repo, tier):
                         rep.check(ok, 'R19.1.refuse', 'oversize firmware: failing exit, nothing sent',
                                   lambda node=node: Finding('R19.1.refuse', 'cli_main', node, 'oversize firmware is not refused with a failing exit before any request', file=FILE,
                                                             line=getattr(node, 'lineno', fn.lineno)), nontrivial=False)
+        unread_here = []
+        if guard is None and m.sends:
+            unread_here = m.unread_inequalities(sym, min(r.idx for r in m.sends), lengths=True)
+            for idx_, node_, test_ in unread_here:
+                unread.append((getattr(node_, 'lineno', '?'), show(test_)[:80]))
         # (2), (3)
         last_dn = None          # the last ERASE / DATA request whose status has not been tested yet
         last_poll = None
@@ -168,7 +180,9 @@ def run(repo, tier):
                     continue
                 n_tests += 1
                 if strip(tested)[0] == 'havoc':
-                    raise AnalysisError('the status tested at line {} is a loop-carried value the analysis cannot trace to a reply'.format(getattr(node, 'lineno', '?')))
+                    rep.undecided('the status tested at line {} is a loop-carried value the analysis cannot trace to a reply'.format(getattr(node, 'lineno', '?')))
+                    last_dn = None
+                    continue
                 if weights is not None and weights != {0: 1}:
                     rep.fail(Finding('R19.3.status-byte', 'cli_main', node,
                                      'the value compared with STATUS_OK is not bStatus (byte 0 of the GETSTATUS reply) but bytes {}'.format(sorted(weights)),
@@ -183,7 +197,9 @@ def run(repo, tier):
                                                                        'state but not the status, so an error reported while the device was settling is missed'.format(show(tested)[:80]),
                                                                        file=FILE, line=getattr(node, 'lineno', None)))
                 if weights is None:
-                    raise AnalysisError('cannot trace the value compared with STATUS_OK at line {} to a GETSTATUS reply: {}'.format(getattr(node, 'lineno', '?'), show(tested)[:80]))
+                    rep.undecided('cannot trace the value compared with STATUS_OK at line {} to a GETSTATUS reply: {}'.format(getattr(node, 'lineno', '?'), show(tested)[:80]))
+                    last_dn = None
+                    continue
                 if last_dn is not None and last_poll is not None and fresh:
                     last_dn = None
                 bad = (verdict == 'bad') == pol
@@ -205,7 +221,10 @@ def run(repo, tier):
                     last_poll = r
                     continue
                 n_req += 1
-                rep.check(guard is not None and guard[0] < idx, 'R19.1.dominates', '{} request is preceded by the size guard'.format(r.kind),
+                if guard is None and unread_here:
+                    pass           # a size comparison the rules could not read precedes the request: no verdict (reported below)
+                else:
+                    rep.check(guard is not None and guard[0] < idx, 'R19.1.dominates', '{} request is preceded by the size guard'.format(r.kind),
                           lambda r=r: Finding('R19.1.dominates', 'cli_main', r.site,
                                               'a {} request can be sent before the firmware size has been checked against the flash size'.format(r.kind),
                                               file=FILE, line=r.line), nontrivial=False)
@@ -231,7 +250,9 @@ def run(repo, tier):
             rep.ok('R19.3.status-tested', 'every erase / data request has its status tested on every path')
     rep.analysed['requests on paths'] = n_req
     rep.count('status tests on paths', n_tests)
-    if not guard_seen:
+    if not guard_seen and unread:
+        rep.undecided('a size comparison before the first request is not one the rules can relate to the firmware length (line {}): {}'.format(*unread[0]))
+    elif not guard_seen:
         rep.fail(Finding('R19.1.guard', 'cli_main', 'size guard', 'no test of the firmware length against the flash capacity precedes the requests', file=FILE, line=fn.lineno))
     else:
         rep.ok('R19.1.guard', 'guard normalises to len(firmware) - capacity > 0 -> refuse')
